@@ -7,9 +7,12 @@ PATCH=$(readlink -f "$1"); shift
 W=/var/tmp/mut-$$
 git -C /repo worktree add -q --detach "$W" HEAD || exit 2
 (cd /repo && rsync -a --include='*/' --include='*.so' --exclude='*' src/ "$W/src/")
-if ! git -C "$W" apply "$PATCH"; then echo "PATCH-DOES-NOT-APPLY $PATCH"; git -C /repo worktree remove --force "$W"; exit 2; fi
+if ! git -C "$W" apply "$PATCH" 2>/dev/null; then
+  # context drifted (later fix: commits): retry with fuzz
+  if ! (cd "$W" && patch -p1 -F3 -s --no-backup-if-mismatch < "$PATCH"); then echo "PATCH-DOES-NOT-APPLY $PATCH"; git -C /repo worktree remove --force "$W"; exit 2; fi
+fi
 if [ -z "${NOTESTS:-}" ]; then
-  (cd "$W" && env -u CHMPY_VERIF /venv/bin/python -m pytest -q -p no:cacheprovider --timeout=900 -x -q src/chmpy/tests 2>&1 | tail -3 | sed 's/^/  tests: /')
+  (cd "$W" && env -u CHMPY_VERIF /venv/bin/python -m pytest -q -p no:cacheprovider --timeout=900 -q src/chmpy/tests 2>&1 | tail -3 | sed 's/^/  tests: /')
 fi
 cd /verif
 for id in "$@"; do
